@@ -697,6 +697,15 @@ def to_onnx(
                 pass
             return dest
 
+        # A previous export to the same path may have left a sidecar. onnx appends
+        # to an existing external-data file (it would grow with unreferenced bytes)
+        # and refuses to write at all when the name also resolves from the current
+        # directory, so start from a clean slate.
+        try:
+            if os.path.exists(data_path):
+                os.remove(data_path)
+        except OSError:
+            pass
         onnx.save_model(
             model_proto,
             dest,
